@@ -344,6 +344,22 @@ theorem custom_subst_scope_pretty (c : Cfg) (i : Subst → PStr → PStr) (h : c
 example : pretty (mkHTMLFormatter { entity_substitution := .custom 0 }) bracket 0 none sample
     = ofS "<p a=\"[]\" b=\"[&]\">\n <br/>\n [x&y]\n <script>\n  1&2\n </script>\n <!--&-->\n</p>\n" := by decide +kernel
 
+/-- Attribute values that are not `str` (numbers, bools, path/URL objects, … held raw in a parsed tag's plain dict) are
+    stringified BEFORE the substitution: in the token skeleton such a value is indistinguishable from the `str` with the same
+    text — same substitution, same quoting, the custom function sees `str(value)` — except that an object whose `str()` is
+    empty is never written as a boolean attribute (`obj == ""` is false in `Formatter.attributes`). -/
+theorem non_str_attribute_values_are_substituted (k s : PStr) :
+    (s ≠ [] → attrToks (k, .other s) = attrToks (k, .str s)) ∧
+    attrToks (k, .other []) = [.lit (k ++ [61]), .attrVal []] ∧
+    (∀ eab g, mapAttr eab g (k, .other s) = (k, .str (g s))) := by
+  refine ⟨fun hs => by simp [attrToks, hs], rfl, fun _ _ => rfl⟩
+
+example : render (mkHTMLFormatter { entity_substitution := .xml, empty_attributes_are_booleans := true }) builtin none
+      (.tag [97] [] [([104], .other [47, 38, 60]), ([110], .other [52, 50]), ([101], .other [])] false false [])
+    = ofS "<a e=\"\" h=\"/&amp;&lt;\" n=\"42\"></a>" := by decide +kernel
+example : render (mkXMLFormatter { entity_substitution := .custom 0 }) bracket none
+      (.tag [97] [] [([110], .other [52, 50])] true false []) = ofS "<a n=\"[42]\"/>" := by decide +kernel
+
 /-! ## however the formatter is supplied -/
 
 /-- A `Formatter` object is used as it is by every output method. -/
